@@ -2,7 +2,26 @@ use crate::json::W;
 use crate::Ctx;
 use rustc_hir::def::DefKind;
 use rustc_middle::ty::{self, Ty, TypingEnv};
+use rustc_infer::infer::TyCtxtInferExt;
+use rustc_trait_selection::infer::InferCtxtExt;
 use std::collections::HashSet;
+
+/// does `t` implement the auto trait (Send / Sync)?  (closed, non-generic types only)
+pub fn implements<'tcx>(cx: &Ctx<'tcx>, t: Ty<'tcx>, lang: rustc_hir::LangItem) -> Option<bool> {
+    let tcx = cx.tcx;
+    let did = tcx.lang_items().get(lang)?;
+    let infcx = tcx.infer_ctxt().build(ty::TypingMode::non_body_analysis());
+    let r = infcx.type_implements_trait(did, [t], ty::ParamEnv::empty());
+    Some(r.must_apply_modulo_regions())
+}
+
+pub fn implements_diag<'tcx>(cx: &Ctx<'tcx>, t: Ty<'tcx>, name: &str) -> Option<bool> {
+    let tcx = cx.tcx;
+    let did = tcx.get_diagnostic_item(rustc_span::Symbol::intern(name))?;
+    let infcx = tcx.infer_ctxt().build(ty::TypingMode::non_body_analysis());
+    let r = infcx.type_implements_trait(did, [t], ty::ParamEnv::empty());
+    Some(r.must_apply_modulo_regions())
+}
 
 /// Deep walk: which UnsafeCell-bearing ADTs / opaque things are reachable through a type,
 /// following Box/Vec/Arc/raw pointers/references (unlike `Freeze`, which is shallow).
@@ -19,8 +38,13 @@ pub fn deep_walk<'tcx>(cx: &Ctx<'tcx>, t: Ty<'tcx>, seen: &mut HashSet<Ty<'tcx>>
             }
             let p = cx.path(adt.did());
             // well-known interior-mutability carriers are reported by name (they all bottom out in UnsafeCell)
+            // Arc's reference counters are interior-mutable bookkeeping, not payload state: follow `data` only
+            let arc_inner = p == "alloc::sync::ArcInner";
             for v in adt.variants().iter() {
                 for f in v.fields.iter() {
+                    if arc_inner && f.name.as_str() != "data" {
+                        continue;
+                    }
                     let ft = f.ty(tcx, args);
                     let before = found.len();
                     deep_walk(cx, ft, seen, found, depth + 1);
@@ -171,8 +195,38 @@ pub fn dump_items<'tcx>(cx: &mut Ctx<'tcx>, out: &mut W) {
             out.key("deep");
             strs(out, &found);
             out.kbool("freeze", t.is_freeze(tcx, tenv));
+            if let Some(b) = implements_diag(cx, t, "Send") {
+                out.kbool("send", b);
+            }
+            if let Some(b) = implements(cx, t, rustc_hir::LangItem::Sync) {
+                out.kbool("sync", b);
+            }
         }
         out.obj_end();
+    }
+    out.arr_end();
+
+    out.key("aliases");
+    out.arr_begin();
+    for ldid in tcx.iter_local_def_id() {
+        let did = ldid.to_def_id();
+        if tcx.def_kind(did) == DefKind::TyAlias {
+            let generics = tcx.generics_of(did);
+            let t = tcx.type_of(did).instantiate_identity().skip_norm_wip();
+            out.obj_begin();
+            out.kstr("name", &cx.path(did));
+            let ti = cx.ty(t);
+            out.kint("ty", ti as i128);
+            if !generics.own_requires_monomorphization() {
+                if let Some(b) = implements_diag(cx, t, "Send") {
+                    out.kbool("send", b);
+                }
+                if let Some(b) = implements(cx, t, rustc_hir::LangItem::Sync) {
+                    out.kbool("sync", b);
+                }
+            }
+            out.obj_end();
+        }
     }
     out.arr_end();
 
